@@ -266,10 +266,7 @@ class World:
     config._INTERACTIVE_MODE = False
     config._FINALIZE_HOOKS[:] = self._hooks_before
     self._hard_reset()
-    for sel in [k for k, _ in list(config._REGISTRY.items()) if k not in self._reg_before]:
-      config._REGISTRY.pop(sel)
-    for k in [k for k in list(config._INVERSE_REGISTRY) if k not in self._inv_before]:
-      del config._INVERSE_REGISTRY[k]
+    core.restore_registry(config, self._reg_before, self._inv_before)
     config._RENAMED_SELECTORS.clear()
     for mname in self.published:
       sys.modules.pop(mname, None)
